@@ -1,0 +1,88 @@
+//go:build verif
+
+package plush
+
+// Contracts for the iterator helpers (C19), checked by /verif/bin/plushvc. The verifDrain*
+// functions are ghost clients: real Go compiled only under the build tag "verif"; they only
+// call the real functions, and their postconditions are the property-level lemmas
+// (range = a..b, between = a+1..b-1, until = 0..n-1, for ALL 64-bit arguments).
+
+
+//@ func (r *ranger) Next
+//@ arith wrap
+//@ ensures some: !old(r.done) && old(r.pos) <= r.end ==> result == box(old(r.pos)) && (old(r.pos) == r.end ==> r.done && r.pos == old(r.pos)) && (old(r.pos) < r.end ==> !r.done && r.pos == old(r.pos) + 1)
+//@ ensures none: old(r.done) || old(r.pos) > r.end ==> result == nil && r.pos == old(r.pos) && r.done == old(r.done)
+//@ ensures end: r.end == old(r.end)
+//@ assigns r.pos, r.done
+
+//@ func rangeHelper
+//@ arith wrap
+//@ ensures shape: is(result, "*ranger") && fresh(unbox(result, "*ranger")) && unbox(result, "*ranger").pos == a && unbox(result, "*ranger").end == b && !unbox(result, "*ranger").done
+//@ assigns fresh
+
+//@ func betweenHelper
+//@ arith wrap
+//@ ensures empty: a >= b ==> is(result, "*ranger") && fresh(unbox(result, "*ranger")) && unbox(result, "*ranger").done
+//@ ensures shape: a < b ==> is(result, "*ranger") && fresh(unbox(result, "*ranger")) && unbox(result, "*ranger").pos == a + 1 && unbox(result, "*ranger").end == b - 1 && !unbox(result, "*ranger").done
+//@ assigns fresh
+
+//@ func untilHelper
+//@ arith wrap
+//@ ensures empty: a <= 0 ==> is(result, "*ranger") && fresh(unbox(result, "*ranger")) && unbox(result, "*ranger").done
+//@ ensures shape: a > 0 ==> is(result, "*ranger") && fresh(unbox(result, "*ranger")) && unbox(result, "*ranger").pos == 0 && unbox(result, "*ranger").end == a - 1 && !unbox(result, "*ranger").done
+//@ assigns fresh
+
+// verifDrain: draining a ranger r0 = (lo, hi, done0) yields lo..hi (nothing if done0 or lo > hi).
+//@ func verifDrain
+//@ arith wrap
+//@ requires r != nil
+//@ ensures len: !old(r.done) && old(r.pos) <= old(r.end) ==> len(result) == old(r.end) - old(r.pos) + 1
+//@ ensures empty: old(r.done) || old(r.pos) > old(r.end) ==> len(result) == 0
+//@ ensures elems: forall i int :: 0 <= i && i < len(result) ==> result[i] == old(r.pos) + i
+//@ assigns r.pos, r.done, fresh
+//@ loop 1: invariant r.end == old(r.end) && (len(out) > 0 || v != nil ==> !old(r.done) && old(r.pos) <= old(r.end))
+//@ loop 1: invariant cur: v != nil ==> v == box(old(r.pos) + len(out)) && old(r.pos) + len(out) <= r.end && ((r.done && r.pos == old(r.pos) + len(out) && r.pos == r.end) || (!r.done && r.pos == old(r.pos) + len(out) + 1 && r.pos <= r.end))
+//@ loop 1: invariant fin: v == nil ==> (len(out) == 0 && (old(r.done) || old(r.pos) > old(r.end))) || (len(out) > 0 && old(r.pos) + len(out) - 1 == r.end)
+//@ loop 1: invariant elems: forall i int :: 0 <= i && i < len(out) ==> out[i] == old(r.pos) + i
+//@ loop 1: decreases r.end - old(r.pos) - len(out) + ite(v != nil, 1, 0)
+
+func verifDrain(r *ranger) []int {
+	out := []int{}
+	for v := r.Next(); v != nil; v = r.Next() {
+		out = append(out, v.(int))
+	}
+	return out
+}
+
+//@ func verifDrainRange
+//@ arith wrap
+//@ ensures len: a <= b ==> len(result) == b - a + 1
+//@ ensures empty: a > b ==> len(result) == 0
+//@ ensures elems: forall i int :: 0 <= i && i < len(result) ==> result[i] == a + i
+//@ assigns fresh
+
+func verifDrainRange(a, b int) []int {
+	return verifDrain(rangeHelper(a, b).(*ranger))
+}
+
+//@ func verifDrainBetween
+//@ arith wrap
+//@ ensures len: a < b ==> len(result) == b - a - 1
+//@ ensures empty: a >= b ==> len(result) == 0
+//@ ensures elems: forall i int :: 0 <= i && i < len(result) ==> result[i] == a + 1 + i
+//@ assigns fresh
+
+func verifDrainBetween(a, b int) []int {
+	return verifDrain(betweenHelper(a, b).(*ranger))
+}
+
+//@ func verifDrainUntil
+//@ arith wrap
+//@ ensures len: n > 0 ==> len(result) == n
+//@ ensures empty: n <= 0 ==> len(result) == 0
+//@ ensures elems: forall i int :: 0 <= i && i < len(result) ==> result[i] == i
+//@ assigns fresh
+
+func verifDrainUntil(n int) []int {
+	return verifDrain(untilHelper(n).(*ranger))
+}
